@@ -25,7 +25,8 @@ import c06_translate
 THEOREMS = ["C06_key_encoding_injective", "C06_refines", "C06_last_write_wins", "C06_other_keys_untouched",
             "C06_never_written_raises", "C06_rejected_update_keeps_old", "C06_writes_under_root",
             "C06_flatten_injective", "C06_add_routes_to_own_family", "C06_refuted_unfixed",
-            "C06_valid_calls_return", "C06_check_seq_sound", "C06_arrow_alias_witness", "C06_file_names_injective"]
+            "C06_valid_calls_return", "C06_check_seq_sound", "C06_arrow_alias_witness", "C06_file_names_injective",
+            "C06_outcome_independent_of_store", "C06_json_roundtrip", "C06_json_print_injective", "C06_check_file_sound"]
 
 # ---------------------------------------------------------------------------------------------
 # families: the kinds of the dictionary levels, the Coq constructors, the functions
@@ -214,7 +215,7 @@ def gen_leaf(kind, leaf, install=None):
     """-> (data handed to the implementation, canonical expected read or None when the leaf is invalid)"""
     seed, bad = leaf["seed"], leaf.get("bad")
     if "value" in leaf:
-        return leaf["value"], canon(float(leaf["value"]))
+        return leaf["value"], canon(float(leaf["value"])), float(leaf["value"])
     rng = random.Random(seed)
     n, m, k = _size(rng), _size(rng), _size(rng, 3)
     if kind == "wvl":
@@ -222,7 +223,7 @@ def gen_leaf(kind, leaf, install=None):
         w, wexp = _scalar_form(rng, w0)
         if rng.random() < 0.1:
             w, wexp = repr(float(w0)), np.float64(w0)        # float() also accepts the text of a number
-        return w, canon(float(wexp))
+        return w, canon(float(wexp)), float(wexp)
     if kind in ("adf11", "pec", "pectcx"):
         ne, te = _arr(rng, (n,)), _arr(rng, (m,))
         td = _arr(rng, (k,))
@@ -235,7 +236,7 @@ def gen_leaf(kind, leaf, install=None):
             data3 = np.empty((n, m, 2))
             data3[:, :, :] = rate2[:, :, None]
             exp = {"ne": ne, "te": te, "td": np.array([0.01, 10000]), "rate": data3}
-            return {"ne": ne.copy(), "te": te.copy(), "rate": rate2}, canon(exp)
+            return {"ne": ne.copy(), "te": te.copy(), "rate": rate2}, canon(exp), exp
         rate = _arr(rng, shape)
         if install in ("adf11",):
             # parsed ADF11: log10 values in ADAS units; install.py converts them
@@ -248,7 +249,7 @@ def gen_leaf(kind, leaf, install=None):
                 ne = ne.reshape(1, n)
             elif bad:
                 rate = rate[:, :-1] if m > 1 else np.concatenate([rate, rate], axis=1)
-            return {"ne": ne, "te": te, "rates": rate}, (None if bad else canon(exp))
+            return {"ne": ne, "te": te, "rates": rate}, (None if bad else canon(exp)), exp
         base = {"ne": ne, "te": te, "rate": rate}
         if kind == "pectcx":
             base["td"] = td
@@ -262,7 +263,7 @@ def gen_leaf(kind, leaf, install=None):
             _spoil(rng, bad, give, exp, ["ne", "te"] + (["td"] if kind == "pectcx" else []), "rate", shape)
         if kind == "adf11":
             give["rates"] = give.pop("rate")
-        return give, (None if bad else canon(exp))
+        return give, (None if bad else canon(exp)), exp
     if kind == "bcx":
         give, exp = {}, {}
         for x, y in (("eb", "qeb"), ("ti", "qti"), ("ni", "qni"), ("z", "qz"), ("b", "qb")):
@@ -275,7 +276,7 @@ def gen_leaf(kind, leaf, install=None):
         if bad:
             _spoil(rng, bad if bad in ("ndim", "colvec", "scalar") else "shape", give, exp,
                    [rng.choice(["eb", "ti", "ni", "z", "b", "qeb", "qti", "qni", "qz", "qb"])], None, ())
-        return give, (None if bad else canon(exp))
+        return give, (None if bad else canon(exp)), exp
     if kind == "beam":
         base = {"e": _arr(rng, (n,)), "n": _arr(rng, (m,)), "t": _arr(rng, (k,)), "sen": _arr(rng, (n, m)), "st": _arr(rng, (k,))}
         give, exp = {}, {}
@@ -283,12 +284,14 @@ def gen_leaf(kind, leaf, install=None):
             give[key], exp[key] = _form(rng, v, table_ndarray=(key == "sen"))
         for r in ("eref", "nref", "tref", "sref"):
             give[r], exp[r] = _scalar_form(rng, _num(rng))
+        if leaf.get("extra"):
+            give["comment"] = np.array([1.0])            # an entry json.dumps cannot serialise (the whole dictionary is dumped)
         if bad:
             if bad in ("shape", "transposed", "emptylist") and rng.random() < 0.35:
                 give["st"] = np.asarray(exp["st"]).tolist() + [2.0]       # t.shape != st.shape
             else:
                 _spoil(rng, bad, give, exp, ["e", "n"] if bad in ("shape", "emptylist") else ["e", "n", "t"], "sen", (n, m))
-        return give, (None if bad else canon(exp))
+        return give, (None if bad else canon(exp)), exp
     raise ValueError(kind)
 
 
@@ -320,6 +323,7 @@ class World:
                 self.sp[n] = o
                 ZNUM.setdefault(n, int(o.atomic_number))
                 SYM.setdefault(n, o.symbol)
+        self.sp[NOEL] = "C"
         self.name_of = {}
         for n, o in self.sp.items():
             self.name_of.setdefault(id(o), n)
@@ -453,6 +457,9 @@ class World:
         except ValueError as e:
             self.last_exc = repr(e)
             return 1
+        except TypeError as e:
+            self.last_exc = repr(e)
+            return 3
         except Exception as e:      # noqa: BLE001 - reported, never swallowed: code 2 is a disagreement
             self.last_exc = repr(e)
             return 2
@@ -752,8 +759,9 @@ def call_leaves(c):
     return out
 
 
-ZNUM = {"hydrogen": 1, "deuterium": 1, "tritium": 1, "helium": 2, "helium3": 2, "carbon": 6, "neon": 10}
-SYM = {"hydrogen": "H", "deuterium": "D", "tritium": "T", "helium": "He", "helium3": "He3", "carbon": "C", "neon": "Ne"}
+NOEL = "@noelem"      # an argument that is not an Element (a plain string): every update function raises TypeError
+ZNUM = {NOEL: 0, "hydrogen": 1, "deuterium": 1, "tritium": 1, "helium": 2, "helium3": 2, "carbon": 6, "neon": 10}
+SYM = {NOEL: "x", "hydrogen": "H", "deuterium": "D", "tritium": "T", "helium": "He", "helium3": "He3", "carbon": "C", "neon": "Ne"}
 
 
 def normkey(given, fam, keys):
@@ -781,8 +789,10 @@ def leaf_expected(fam, leaf, inst):
 
 
 def keys_valid(fam, keys):
-    """the argument checks of the family (charge <= Z, metastable >= 0), as the property's text implies them"""
+    """the argument checks of the family (Element arguments, charge <= Z, metastable >= 0), as the property's text implies them"""
     lv = LEVELS[fam]
+    if NOEL in keys:
+        return False
     if fam in ("ion", "rec", "line", "cont", "cxp", "wvl"):
         return keys[1] <= ZNUM[keys[0]]
     if fam == "tcx":
@@ -1017,6 +1027,7 @@ def reseed(c, rng):
     for _, _, _, leaf, _ in call_leaves(c):
         if "value" not in leaf:
             leaf["seed"], leaf["bad"] = rng.getrandbits(48), None
+        leaf.pop("extra", None)
         leaf.pop("id", None)
     return c
 
@@ -1040,6 +1051,25 @@ def spoil_call(c, rng):
     """make the call cross one of the guards: a leaf with invalid data, a charge above the bound, a negative metastable"""
     leaves = [lf for _, fam, _, lf, inst in call_leaves(c) if fam != "wvl" and "value" not in lf and inst != "adf15tcx"]
     kinds = {k for _, _, lv in call_trees(c) for k in lv}
+    x = rng.random()
+    if c["style"] != "install" and x < 0.3:
+        # an argument that is not an Element (not the donor of thermal CX: it is never checked, its .symbol is used)
+        done0 = []
+        def fn0(kind, k, _state={"i": -1}):
+            _state["i"] += 1
+            if kind == "sp" and not done0 and rng.random() < 0.5:
+                done0.append(1)
+                return NOEL
+            return k
+        for owner, key, levels in call_trees(c):
+            if c["fam"] == "tcx":
+                owner[key] = [[d, map_keys(sub, levels[1:], fn0)] for d, sub in owner[key]]
+            else:
+                owner[key] = map_keys(owner[key], levels, fn0)
+        return c
+    if c["style"] != "install" and c["fam"] in ("bstop", "bpop") and leaves and x < 0.65:
+        rng.choice(leaves)["extra"] = True
+        return c
     if leaves and (rng.random() < 0.6 or not ({"q", "m"} & kinds)):
         lf = rng.choice(leaves)
         lf["bad"] = rng.choice(BAD_KINDS)
@@ -1108,7 +1138,8 @@ def queries_for(h, rng, cap):
                 if kind == "sp":
                     for s2 in u["sp"]:
                         add(extra, (given, fam, keys[:i] + (s2,) + keys[i + 1:]))
-    extra = [q for q in extra if q not in direct]
+    direct = [q for q in direct if NOEL not in q[2]]
+    extra = [q for q in extra if q not in direct and NOEL not in q[2]]
     rng.shuffle(extra)
     direct = direct[:cap]
     return direct + extra[:max(cap - len(direct), cap // 3)]
@@ -1148,14 +1179,15 @@ def run_history(w, h, queries):
         trace.append([oc, reads])
         # ---- the property, stated on the implementation ----
         leaves = call_leaves(c)
-        all_valid = all(lf["bad"] is None and keys_valid(fam, keys) for _, fam, keys, lf, _ in leaves) and groups_valid(c)
+        all_valid = all(lf["bad"] is None and not lf.get("extra") and keys_valid(fam, keys) for _, fam, keys, lf, _ in leaves) and groups_valid(c)
+        type_rejectable = any(lf.get("extra") or NOEL in keys for _, fam, keys, lf, _ in leaves) or NOEL in json.dumps(c)
         given_vals = {}
         for given, fam, keys, lf, inst in leaves:
             given_vals.setdefault(normkey(given, fam, keys), []).append(lf["id"])
         where = {"call_index": ci, "call": c}
-        if oc == 2:
+        if oc == 2 or (oc == 3 and not type_rejectable):
             fails.append(dict(where, claim="call raised an unexpected exception", exception=w.last_exc))
-        elif oc == 1 and all_valid:
+        elif oc in (1, 3) and all_valid:
             fails.append(dict(where, claim="valid data rejected", exception=w.last_exc))
         new_state = dict(state)
         if oc == 0 and all_valid:
@@ -1196,6 +1228,8 @@ def run_history(w, h, queries):
 # Coq text
 # ---------------------------------------------------------------------------------------------
 def c_sp(name):
+    if name == NOEL:
+        return "NoEl"
     return '(Sp %s %d)' % (coq_string(SYM[name]), ZNUM[name])
 
 
@@ -1243,7 +1277,7 @@ def leaf_shapes(fam, leaf, inst):
 
 
 def c_leaf(leaf):
-    return "(T %s [%s] %d)" % (leaf["dk"], "; ".join("[" + "; ".join(str(x) for x in s) + "]" for s in leaf["shapes"]), leaf["id"])
+    return "(%s %s [%s] %d)" % ("TX" if leaf.get("extra") else "T", leaf["dk"], "; ".join("[" + "; ".join(str(x) for x in s) + "]" for s in leaf["shapes"]), leaf["id"])
 
 
 def c_tree(tree, levels):
@@ -1322,7 +1356,8 @@ HEADER = ("From Coq Require Import ZArith List String.\n"
           "Require Import Cherab.Model.C06_Repo Cherab.Model.C06_Check.\n"
           "Import ListNotations.\nOpen Scope string_scope.\nOpen Scope Z_scope.\n"
           "Definition R : path := [\"repo\"].\n"
-          "Definition Sp (s : string) (z : Z) : species := {| sym := s; znum := z |}.\n")
+          "Definition Sp (s : string) (z : Z) : species := {| sym := s; znum := z; is_elem := true |}.\n"
+          "Definition NoEl : species := {| sym := \"x\"; znum := 0; is_elem := false |}.\n")
 
 
 # ---------------------------------------------------------------------------------------------
@@ -1408,6 +1443,162 @@ def translator_tie(ctx, repo):
     return info
 
 
+# ---------------------------------------------------------------------------------------------
+# the JSON layer: the files on disk against the token-level printer / reader of Model/C06_Json.v
+# ---------------------------------------------------------------------------------------------
+import re as _re
+import struct as _struct
+_TOK = _re.compile(r'\s*(?:(?P<p>[{}\[\],:])|(?P<s>"(?:[^"\\\\]|\\\\.)*")|(?P<n>-?Infinity|NaN|-?\d[0-9.eE+-]*))')
+_PUNCT = {"{": "TLBrace", "}": "TRBrace", "[": "TLBrack", "]": "TRBrack", ",": "TComma", ":": "TColon"}
+
+
+class _Ids:
+    def __init__(self):
+        self.d = {}
+
+    def __call__(self, x):
+        b = _struct.pack("<d", float(x))
+        if b not in self.d:
+            self.d[b] = len(self.d) + 1
+        return self.d[b]
+
+
+def json_tokens(text, ids):
+    out, pos = [], 0
+    text = text.rstrip()
+    while pos < len(text):
+        m = _TOK.match(text, pos)
+        if not m:
+            raise ValueError("lexer: unexpected text at %d: %r" % (pos, text[pos:pos + 20]))
+        pos = m.end()
+        if m.group("p"):
+            out.append(_PUNCT[m.group("p")])
+        elif m.group("s"):
+            out.append("TStr %s" % coq_string(json.loads(m.group("s"))))
+        else:
+            out.append("TNum %d" % ids(float(m.group("n").replace("Infinity", "inf").replace("NaN", "nan"))))
+    return out
+
+
+def jv_of(x, ids, order=None):
+    """Python value -> Coq jv text; numbers become ids; `order` sorts the members of a dictionary (None: keep as is)"""
+    if isinstance(x, dict):
+        keys = list(x) if order is None else sorted(x, key=order)
+        return "JObj [%s]" % "; ".join("(%s, %s)" % (coq_string(str(k)), jv_of(x[k], ids, order)) for k in keys)
+    if isinstance(x, (list, tuple)):
+        return "JArr [%s]" % "; ".join(jv_of(y, ids, order) for y in x)
+    if isinstance(x, np.ndarray):
+        return jv_of(x.tolist(), ids, order)
+    return "JNum %d" % ids(x)
+
+
+def _leaf_depth(parts):
+    """how many dictionary levels of a repository file lie above the rate dictionaries"""
+    if parts[:2] == ["beam", "cx"]:
+        return 2
+    if parts[:2] in (["beam", "stopping"], ["beam", "population"]):
+        return 0
+    return 1
+
+
+def collect_json(w, h, limit):
+    """-> Coq definitions 'check_file written loaded tokens' for the files the history left on disk"""
+    by_canon = {}
+    for c in h["calls"]:
+        for given, fam, keys, leaf, inst in call_leaves(c):
+            g = gen_leaf(DATAKIND[fam], leaf, inst)
+            if g[1] is not None:
+                e = g[2]
+                if fam in ADF11 or fam == "tcx":
+                    e = {("rate" if k == "rates" else k): v for k, v in e.items()}
+                by_canon[g[1]] = e
+    out = []
+    for f in w.listing():
+        if len(out) >= limit:
+            break
+        base = w.repo if f[0] == "repo" else os.path.join(w.home, ".cherab", "openadas", "repository")
+        rel = f[1:] if f[0] == "repo" else f[4:]
+        text = open(os.path.join(base, *rel)).read()
+        ids = _Ids()
+        toks = json_tokens(text, ids)
+        if len(toks) > 2500:
+            continue
+        loaded = json.loads(text)
+        depth = _leaf_depth(rel)
+
+        def written(x, d, wvl=(rel[0] == "wavelength")):
+            if d == 0:
+                if wvl:
+                    return by_canon.get(canon(x), "MISSING")
+                return by_canon.get(canon(x), {"MISSING": 0.0})
+            return {k: written(v, d - 1) for k, v in x.items()}
+        wr = written(loaded, depth)
+        # sort_keys=True: str keys in code-point order; the metastables of beam CX are ints when they are sorted
+        order = (lambda k: (0, int(k), "") if (depth == 2 and str(k).lstrip("-").isdigit()) else (1, 0, str(k)))
+        out.append("check_file (%s) (%s) [%s]" % (jv_of(wr, ids, order), jv_of(loaded, ids), "; ".join(toks)))
+    return out
+
+
+def probe_corrupted(w, rng, n_cuts):
+    """a repository file cut short by something outside the code (disk full, killed process): the recorded behaviour of
+    the unchanged readers and writers is the expected outcome - get_* raise json.JSONDecodeError (not RuntimeError);
+    the read-modify-write updaters raise it too and leave the file as it is; the whole-file writers of beam stopping
+    replace it.  The model reader must reject the same texts.  -> (failures, Coq terms 'parse [...]' that must be None)"""
+    rep_, P = w.repository, w.repo
+    D, C = w.sp["deuterium"], w.sp["carbon"]
+    fails, terms = [], []
+    lf = lambda i: {"seed": 9100 + i, "bad": None}       # noqa: E731
+    sc = [
+        ("ionisation/c.json", lambda i: rep_.update_ionisation_rates({C: {1: gen_leaf("adf11", lf(i))[0], 2: gen_leaf("adf11", lf(i + 1))[0]}}, P),
+         lambda: rep_.get_ionisation_rate(C, 1, P), lambda i: rep_.add_ionisation_rate(C, 3, gen_leaf("adf11", lf(i))[0], P), "rmw"),
+        ("pec/excitation/c/5.json", lambda i: rep_.update_pec_rates({"excitation": {C: {5: {(3, 2): gen_leaf("pec", lf(i))[0], (4, 2): gen_leaf("pec", lf(i + 1))[0]}}}}, P),
+         lambda: rep_.get_pec_excitation_rate(C, 5, (3, 2), P), lambda i: rep_.add_pec_excitation_rate(C, 5, (5, 2), gen_leaf("pec", lf(i))[0], P), "rmw"),
+        ("beam/cx/d/c/6.json", lambda i: rep_.update_beam_cx_rates({D: {C: {6: {(8, 7): {0: gen_leaf("bcx", lf(i))[0], 1: gen_leaf("bcx", lf(i + 1))[0]}}}}}, P),
+         lambda: rep_.get_beam_cx_rates(D, C, 6, (8, 7), P), lambda i: rep_.add_beam_cx_rate(D, 2, C, 6, (8, 7), gen_leaf("bcx", lf(i))[0], P), "rmw"),
+        ("wavelength/c/5.json", lambda i: rep_.update_wavelengths({C: {5: {(3, 2): 656.1, (4, 2): 486.1}}}, P),
+         lambda: rep_.get_wavelength(C, 5, (3, 2), P), lambda i: rep_.add_wavelength(C, 5, (5, 2), 434.0, P), "rmw"),
+        ("beam/stopping/d/c/6.json", lambda i: rep_.add_beam_stopping_rate(D, C, 6, gen_leaf("beam", lf(i))[0], P),
+         lambda: rep_.get_beam_stopping_rate(D, C, 6, P), lambda i: rep_.add_beam_stopping_rate(D, C, 6, gen_leaf("beam", lf(i))[0], P), "overwrite"),
+    ]
+    for si, (rel, write, read, update, kind) in enumerate(sc):
+        for ci in range(n_cuts):
+            w.reset()
+            write(10 * si)
+            path = os.path.join(P, rel)
+            text = open(path).read()
+            cut = rng.randint(max(1, len(text) // 4), len(text) - 3)
+            open(path, "w").write(text[:cut])
+            where = {"file": rel, "cut_at": cut, "of": len(text)}
+            try:
+                toks = json_tokens(text[:cut], _Ids())
+                terms.append("match parse [%s] with None => 0%%Z | Some _ => 1%%Z end" % "; ".join(toks))
+            except ValueError:
+                pass            # cut inside a token: not a token sequence at all
+            for what, fn in (("read", read), ("update", lambda: update(10 * si + 5))):
+                before = open(path).read()
+                try:
+                    fn()
+                    got = "returned"
+                except Exception as e:      # noqa: BLE001 - the kind is what is recorded
+                    got = type(e).__name__
+                want = "returned" if (kind == "overwrite" and what == "update") else "JSONDecodeError"
+                if got != want:
+                    fails.append(dict(where, claim="corrupted file: %s %s, expected %s" % (what, got, want)))
+                if what == "update" and kind == "rmw" and open(path).read() != before:
+                    fails.append(dict(where, claim="corrupted file: the rejected update changed the file"))
+            if kind == "overwrite":
+                try:
+                    read()
+                except Exception as e:      # noqa: BLE001
+                    fails.append(dict(where, claim="corrupted file: not readable after the whole-file writer replaced it (%s)" % type(e).__name__))
+    w.reset()
+    return fails, terms
+
+
+JSON_HEADER = ("From Coq Require Import ZArith List String.\nRequire Import Cherab.Model.C06_Json.\nImport ListNotations.\n"
+               "Open Scope string_scope.\nOpen Scope positive_scope.\n")
+
+
 def registry_check(ctx):
     """assumptions of the model about species symbols, checked on the whole element registry"""
     from cherab.core.atomic import elements, Element
@@ -1439,12 +1630,13 @@ def run(ctx):
         "C06_arrow_alias_witness shows the hypothesis cannot be dropped); species symbols are distinct "
         "after lower() and contain no path separator (checked on the element registry at every run)",
         "repositories addressed in one history are equal or cannot share a file (no repository nested inside another one)",
-        "arguments are of the documented types (Element objects, int charges/metastables, int or str levels); TypeError paths are not modelled",
+        "charges / metastables are ints (or numpy integers where they only go into file names), levels are int or str; an argument "
+        "that is not an Element is modelled (TypeError) for every update function except as the thermal-CX donor and in the read functions",
         "for beam CX the read function returns all metastables of a transition: 'RuntimeError' for a (..., metastable) key means the "
         "transition is missing or the metastable is absent from the returned list",
     ]
     ctx.rebuild()
-    ctx.proofs("Properties.C06", THEOREMS, extra_modules=("Model.C06_Check", "Proofs.C06_Check", "Model.C06_Tables"))
+    ctx.proofs("Properties.C06", THEOREMS, extra_modules=("Model.C06_Check", "Proofs.C06_Check", "Model.C06_Tables", "Model.C06_Json"))
 
     import cherab
     from common import REPO
@@ -1481,6 +1673,9 @@ def run(ctx):
     pop_h, pop_after, pop_info = populate_stage(ctx, w, rng, cap)
     if not ctx.replay:
         hist.insert(0, pop_h)
+    corrupt_fails, corrupt_terms = probe_corrupted(w, rng, 2 if quick else 8)
+    for cf in corrupt_fails[:3]:
+        ctx.violation("c06:corrupted-file:" + cf["claim"][:60].replace(" ", "_"), cf["claim"], cf, found=True)
     probe = probe_rejected_after_open(w)
     if probe:
         ctx.violation("c06:truncated-by-rejected-write:" + "+".join(sorted(p["scenario"] for p in probe)),
@@ -1488,9 +1683,12 @@ def run(ctx):
                       "truncated: keys stored before are no longer readable (JSONDecodeError)", {"scenarios": probe}, found=True)
 
     cases, all_fails, dist = [], [], []
+    json_cases, json_limit = [], (80 if quick else 400)
     for hi, h in enumerate(hist):
         queries = h.get("queries") or queries_for(h, rng, cap)
         trace, files, fails = run_history(w, h, queries)
+        if len(json_cases) < json_limit and not fails and h.get("origin") != "create.populate":
+            json_cases += collect_json(w, h, min(8, json_limit - len(json_cases)))
         if h.get("origin") == "create.populate" and not fails:
             fails = [dict(f, call_index=len(h["calls"]) - 1, call={"style": "populate", "fam": "create"}) for f in pop_after()]
         cases.append((hi, h, queries, trace, files))
@@ -1513,7 +1711,27 @@ def run(ctx):
         txt = HEADER + "".join(c_case(hi, h, q, t, f) for hi, h, q, t, f in chunk)
         txt += "Eval vm_compute in [%s].\n" % "; ".join("case_%d" % hi for hi, _, _, _, _ in chunk)
         files_ids.append((ctx.write_gen("cases_%03d.v" % (si // per_file), txt), [hi for hi, _, _, _, _ in chunk]))
-    res = coqc_many([f for f, _ in files_ids], timeout=1500)
+    json_files = []
+    for si in range(0, len(json_cases), 40):
+        chunk = json_cases[si:si + 40]
+        json_files.append((ctx.write_gen("json_%03d.v" % (si // 40), JSON_HEADER + "Eval vm_compute in [\n  " + ";\n  ".join(chunk) + "].\n"), len(chunk)))
+    trunc_file = ctx.write_gen("json_truncated.v", JSON_HEADER + "Eval vm_compute in [\n  " + ";\n  ".join(corrupt_terms) + "].\n")
+    res = coqc_many([f for f, _ in files_ids] + [f for f, _ in json_files] + [trunc_file], timeout=1500)
+    ok, out = res[trunc_file]
+    vals = parse_evals(out) if ok else []
+    codes = parse_zlist(vals[0]) if ok and len(vals) == 1 else []
+    ctx.obligation("JSON layer: the model reader rejects %d truncated repository files (the implementation raises JSONDecodeError on "
+                   "all of them)" % len(corrupt_terms), "correspondence", ok and len(codes) == len(corrupt_terms) and not any(codes) and not corrupt_fails,
+                   out[-600:] if not ok else "codes %s; implementation deviations %s" % (codes, corrupt_fails[:2]))
+    json_bad = 0
+    for f, n in json_files:
+        ok, out = res[f]
+        vals = parse_evals(out) if ok else []
+        codes = parse_zlist(vals[0]) if ok and len(vals) == 1 else []
+        good = ok and len(codes) == n and not any(codes)
+        json_bad += 0 if good else 1
+        ctx.obligation("JSON layer %s (%d repository files: model printer = file tokens, model reader = json.load = what was written)"
+                       % (os.path.basename(f), n), "correspondence", good, out[-800:] if not ok else "codes %s" % codes)
     diffs = []
     for f, ids in files_ids:
         ok, out = res[f]
@@ -1565,6 +1783,7 @@ def run(ctx):
             style_tot[k] = style_tot.get(k, 0) + v
     n_calls = sum(d["calls"] for d in dist)
     rejected = sum(1 for _, _, _, t, _ in cases for oc, _ in t if oc == 1)
+    rejected_type = sum(1 for _, _, _, t, _ in cases for oc, _ in t if oc == 3)
     def shape_of(h):
         # a history without the leaf seeds / ids: two histories are distinct when they differ in calls, keys or validity
         return json.dumps([{k: v for k, v in c.items()} for c in h["calls"]], sort_keys=True, default=str)
@@ -1578,7 +1797,7 @@ def run(ctx):
                 "read back after every call; non-trivial = at least one key written twice and at least one of: alias spelling of a "
                 "transition, rejectable call, call without repository_path" % (14 if quick else 30, cap),
         "distribution": {"histories": len(hist), "corpus": n_corpus, "calls": n_calls, "calls_by_style": style_tot,
-                         "calls_by_family_or_front_end": fam_tot, "calls_rejected_by_implementation": rejected,
+                         "calls_by_family_or_front_end": fam_tot, "calls_rejected_by_implementation": rejected, "calls_rejected_with_TypeError(non-Element argument / unserialisable entry)": rejected_type,
                          "calls_with_invalid_leaf": sum(d["rejectable"] for d in dist),
                          "calls_without_repository_path": sum(d["default_root_calls"] for d in dist),
                          "alias_rewrites": sum(d["alias"] for d in dist), "overwrites": sum(d["overwrites"] for d in dist),
@@ -1587,6 +1806,7 @@ def run(ctx):
                          "repository_path_forms": extra_tot["repo_forms"], "invalid_leaf_kinds": extra_tot["bad_kinds"],
                          "derived_calls(repeat/rewrite/toggle/respell/reroute)": extra_tot["derived"],
                          "reads": sum(len(t) * len(q) for _, _, q, t, _ in cases), "registry_symbols": n_syms,
+                         "json_files_compared_token_by_token": len(json_cases), "truncated_files_probed": len(corrupt_terms),
                          "create.populate": pop_info, "tables_regenerated_from_source": tie_info, "rejected_after_open_probe": {"scenarios": 3, "failing": [p["scenario"] for p in probe]}},
         "tolerance": "none. In Python: values bit for bit (float64 tobytes, shape, entry names) -> value ids. Inside Coq (vm_compute, "
                      "Model/C06_Check.v:check_seq, soundness C06_check_seq_sound), exactly: per call the outcome (returned / ValueError; the model "
@@ -1596,7 +1816,12 @@ def run(ctx):
                      "repository_path hand-over, default path, encode_transition format and case folding, valid_classes, valid_charge and "
                      "metastable guards, ADF11 charge-shift types, ADF15 thermal-CX target",
         "partial": ["install_* front ends are exercised from the parsed data on (stub parsers); the parsers are property C08",
-                    "TypeError paths (non-Element arguments) and non-int metastables/charges are not modelled",
+                    "TypeError of the update functions for non-Element arguments and for non-serialisable beam stopping / population "
+                    "dictionaries IS modelled (third outcome); not modelled: non-Element arguments of the read functions and of the "
+                    "thermal-CX donor (never checked by the code), numpy-integer beam-CX metastables (accepted iff the metastable already "
+                    "exists in the file: state-dependent)",
+                    "JSON layer: numbers are opaque tokens (repr/float round trip is CPython's), white space is not modelled, sorted member "
+                    "order is checked on the files; corrupted files: recorded behaviour checked by probes, no prefix theorem",
                     "os.path.join itself is not modelled; that joining the model's components with '/' is injective for slash-free "
                     "symbols is proved (C06_flatten_injective, C06_file_names_injective) and the path templates are regenerated from "
                     "the source and compared with the model's in the kernel (Gen/C06/Tie.v)",
